@@ -52,6 +52,12 @@ theorem unaryTok_mem (op : UnaryOp) : op.tok = .Plus ∨ op.tok = .Minus ∨ op.
 theorem headOK_paren (ts : Toks) : HeadOK true (parens ts) := by
   simp [parens_eq, HeadOK, PrimStart, sim]
 
+theorem P_call {f : Expr} (hf : Frag f) (args : List Arg) (ts : Bool) (sp : Span) (lvl : Nat) :
+    P (.call f args ts sp) lvl = P f suffixPrec ++ sim .LeftParen ::
+      (prArgs false args ++ sim .RightParen :: (if ts then [sim .Tailstrict] else [])) := by
+  simp only [P, pr, sub_false]
+  rw [pr_indep hf]
+
 /-- First token(s) of a printed fragment tree. -/
 theorem first_tok {e : Expr} (h : Frag e) : ∀ lvl : Nat,
     HeadOK false (P e lvl) ∧
@@ -116,5 +122,122 @@ theorem first_tok {e : Expr} (h : Frag e) : ∀ lvl : Nat,
       rw [hP]
       have h6 : inSuperKind.prec < unaryPrec := by decide
       exact ⟨(ih inSuperKind.prec).1.append _, fun h10 _ => by omega⟩
+  | @call f args ts sp hf ha ihf iha =>
+    intro lvl
+    rw [P_call hf]
+    exact both (((ihf suffixPrec).2 (by decide) (Or.inr (by decide))).append _)
+
+/-- the second token, if there is one, is not `=` (so a positional argument is never mistaken
+    for a named one) -/
+def Sec (l : Toks) : Prop := l ≠ [] ∧ ∀ a b rest, l = a :: b :: rest → b ≠ sim .Eq
+
+theorem Sec.append {l : Toks} (h : Sec l) {tok : TokKind} (ht : tok ≠ sim .Eq) (m : Toks) :
+    Sec (l ++ tok :: m) := by
+  refine ⟨by simp, ?_⟩
+  intro a b rest hab
+  cases l with
+  | nil => exact absurd rfl h.1
+  | cons x l' =>
+    cases l' with
+    | nil =>
+      simp only [List.cons_append, List.nil_append, List.cons.injEq] at hab
+      rw [← hab.2.1]; exact ht
+    | cons y l'' =>
+      simp only [List.cons_append, List.cons.injEq] at hab
+      rw [← hab.2.1]
+      exact h.2 x y l'' rfl
+
+theorem Sec.cons_of_head {tk : TokKind} {l : Toks} (h : HeadOK false l) : Sec (tk :: l) := by
+  refine ⟨by simp, ?_⟩
+  intro a b rest hab
+  cases l with
+  | nil => exact h.elim
+  | cons x l' =>
+    simp only [List.cons.injEq] at hab
+    rw [← hab.2.1]
+    intro hx
+    have := h.1
+    rw [hx] at this
+    simp [ExprStart, sim] at this
+
+theorem binTok_ne_eq (op : BinaryOp) : sim op.tok ≠ sim .Eq := by
+  cases op <;> decide
+
+theorem sec_tok {e : Expr} (h : Frag e) : ∀ lvl : Nat, Sec (P e lvl) := by
+  induction h with
+  | null sp => intro lvl; simp [P, pr, Sec]
+  | bool b sp => intro lvl; simp [P, pr, Sec]
+  | selfObj sp => intro lvl; simp [P, pr, Sec]
+  | dollar sp => intro lvl; simp [P, pr, Sec]
+  | str s sp => intro lvl; simp [P, pr, Sec]
+  | textBlock s sp => intro lvl; simp [P, pr, Sec]
+  | number s sp => intro lvl; simp [P, pr, Sec]
+  | ident i sp => intro lvl; simp [P, pr, Sec]
+  | superField ssp name sp => intro lvl; simp [P, pr, Sec, sim]
+  | superIndex ssp sp hi ih => intro lvl; simp [P, pr, Sec, sim]
+  | @paren e sp he ih =>
+    intro lvl
+    have : P (.paren e sp) lvl = sim .LeftParen :: (P e 0 ++ [sim .RightParen]) := by
+      simp [P, pr, sub_false, parens_eq]
+    rw [this]
+    exact Sec.cons_of_head ((first_tok he 0).1.append _)
+  | @unary e op sp he ih =>
+    intro lvl
+    by_cases hl : unaryPrec < lvl
+    · have : P (.unary op e sp) lvl = sim .LeftParen :: ((sim op.tok :: P e unaryPrec) ++ [sim .RightParen]) := by
+        simp [P, pr, sub_false, hl, parens_eq]
+      rw [this]
+      refine Sec.cons_of_head ?_
+      rcases unaryTok_mem op with h | h | h | h <;> simp [HeadOK, ExprStart, sim, h]
+    · have : P (.unary op e sp) lvl = sim op.tok :: P e unaryPrec := by simp [P, pr, sub_false, hl]
+      rw [this]
+      exact Sec.cons_of_head (first_tok he unaryPrec).1
+  | @binary l r op sp hl hr ihl ihr =>
+    intro lvl
+    by_cases hp : op.prec < lvl
+    · have : P (.binary l op r sp) lvl =
+          sim .LeftParen :: ((P l op.prec ++ sim op.tok :: P r (op.prec + 1)) ++ [sim .RightParen]) := by
+        simp only [P, pr, hp, if_true, sub_false, parens_eq]
+        rw [pr_indep hl]
+      rw [this]
+      exact Sec.cons_of_head (((first_tok hl op.prec).1.append _).append _)
+    · have hP : P (.binary l op r sp) lvl = P l op.prec ++ sim op.tok :: P r (op.prec + 1) := by
+        simp only [P, pr, hp, if_false, sub_false]
+        rw [pr_indep hl]
+      rw [hP]
+      exact (ihl op.prec).append (binTok_ne_eq op) _
+  | @field e name sp he ih =>
+    intro lvl
+    have hP : P (.field e name sp) lvl = P e suffixPrec ++ sim .Dot :: [.ident name.value] := by
+      simp only [P, pr, sub_false]
+      rw [pr_indep he]
+    rw [hP]
+    exact (ih suffixPrec).append (by decide) _
+  | @index e i sp he hi ihe ihi =>
+    intro lvl
+    have hP : P (.index e i sp) lvl =
+        P e suffixPrec ++ sim .LeftBracket :: (P i 0 ++ [sim .RightBracket]) := by
+      simp only [P, pr, sub_false]
+      rw [pr_indep he]
+    rw [hP]
+    exact (ihe suffixPrec).append (by decide) _
+  | @inSuper e ssp sp he ih =>
+    intro lvl
+    by_cases hp : inSuperKind.prec < lvl
+    · have : P (.inSuper e ssp sp) lvl =
+          sim .LeftParen :: ((P e inSuperKind.prec ++ [sim .In, sim inSuperHead]) ++ [sim .RightParen]) := by
+        simp only [P, pr, hp, if_true, sub_false, parens_eq]
+        rw [pr_indep he]
+      rw [this]
+      exact Sec.cons_of_head (((first_tok he inSuperKind.prec).1.append _).append _)
+    · have hP : P (.inSuper e ssp sp) lvl = P e inSuperKind.prec ++ sim .In :: [sim inSuperHead] := by
+        simp only [P, pr, hp, if_false, sub_false]
+        rw [pr_indep he]
+      rw [hP]
+      exact (ih inSuperKind.prec).append (by decide) _
+  | @call f args ts sp hf ha ihf iha =>
+    intro lvl
+    rw [P_call hf]
+    exact (ihf suffixPrec).append (by decide) _
 
 end Rsj.Parser
